@@ -357,7 +357,7 @@ func main() {
 			}
 		}
 		do(1, histories(len1, true))
-		do(3, histories(len3, false))
+		do(3, histories(len3, true))
 		shard.Emit(res)
 		return
 	}
